@@ -4,7 +4,7 @@
 id=$1; cmd=$2; needs=$3; name=${4:-$id}
 out=$(/verif/tool/verifyseed.sh $id "$cmd" 2>&1); echo "$out" | tail -12
 echo "$out" | grep -q "^VERIFIED $id" || { echo "not adopting"; exit 1; }
-res=$(/verif/tool/tryseed.sh ${SEEDPREFIX:-/tmp/seed_}$id/SEED/patch.diff 2>&1)
+res=$(python3 /verif/selftest/trypatch.py ${SEEDPREFIX:-/tmp/seed_}$id/SEED/patch.diff 2>&1)   # on a scratch copy: /repo itself is never touched
 echo "$res" | grep -v "rc=0"
 dst=/verif/seeded/$name
 mkdir -p $dst
